@@ -1676,6 +1676,24 @@ def run_C14(ctx):
     for c, c2, x, y in zip(so, so2, r1, r2):
         if x != y:
             ctx.direct_failure("setter_order_irrelevant", {"case": c, "reordered": c2}, "SVG output depends on the order of last-value-wins setters")
+    # repeated setters: "K=v1 O=o K=v2" must render exactly like "O=o K=v2" (the earlier value of K leaves no trace, whatever
+    # other setter was called in between)
+    if pm:
+        n_, hx_ = pm[1]
+        two = {"margin": ("7", "2"), "bg": ("102030ff", "ffffffff"), "fg": ("0000ffff", "000000ff"), "ishape": ("1", "2"), "ibg": ("ff000080", "00ff00ff"),
+               "isize": ("5.5", "9"), "igap": ("1.25", "0.5"), "ipos": ("10.5,12", "8,8.25")}
+        ra, rb = [], []
+        for k_, (v1, v2) in two.items():
+            for o_, (w1, _) in two.items():
+                if o_ != k_:
+                    ra.append("svg %d %s image=%s %s=%s %s=%s %s=%s" % (n_, hx_, hexs("i.png"), k_, v1, o_, w1, k_, v2))
+                    rb.append("svg %d %s image=%s %s=%s %s=%s" % (n_, hx_, hexs("i.png"), o_, w1, k_, v2))
+        xa = ctx.run_impl("svg_repeat_a", ra)
+        xb = ctx.run_impl("svg_repeat_b", rb)
+        ctx.count_oracle("last_value_wins", len(ra))
+        for c1, c2, x, y in zip(ra, rb, xa, xb):
+            if x != y:
+                ctx.direct_failure("last_value_wins", {"case": c1, "without_the_earlier_call": c2}, "an overwritten setter value still influences the SVG output")
     th = ["threads %d %d %d" % (nt, 3 if ctx.quick else 12, ctx.seed * 31 + nt) for nt in ([1, 2, 4, 8, 16] if ctx.quick else range(1, 17))]
     impl, _ = ctx.correspond("threads", th)
     ctx.count_oracle("threads_equal_sequential", len(th))
